@@ -6,14 +6,55 @@ VERUS = {
     'float_mul': {'file': 'float_mul.rs', 'w32': False},
     # the same functions, must_panic variants: an infinite operand => no normal return
     'float_mul_inf': {'file': 'float_mul_inf.rs', 'w32': False},
+    # float/src/add.rs Context::{repr_round_sum, repr_add_large_small, repr_add_small_large, add, sub}
+    # (default rlimit 10 is marginal for the two mirror helpers: observed use ~12, 3.5 s; 60 is headroom only)
+    'float_add': {'file': 'float_add.rs', 'w32': False, 'rlimit': 60},
+    # float/src/add.rs add_val_val / add_val_ref / add_ref_val / add_ref_ref (behind FBig + and -)
+    'float_add_ops': {'file': 'float_add_ops.rs', 'w32': False},
+    # must_panic variants of Context::{add, sub} and of the four dispatch functions
+    'float_add_inf': {'file': 'float_add_inf.rs', 'w32': False},
+    # float/src/cmp.rs repr_cmp_same_base + Ord for Repr, PartialOrd / Ord / AbsOrd / PartialEq for FBig
+    'float_cmp': {'file': 'float_cmp.rs', 'w32': False},
+    # float/src/root.rs Context::sqrt (+ must_panic variant: infinite / unlimited precision / negative)
+    'float_sqrt': {'file': 'float_sqrt.rs', 'w32': False},
+    'float_sqrt_panic': {'file': 'float_sqrt_panic.rs', 'w32': False},
 }
 
 _UND_MUL = ('Context::{mul, sqr, cubic}: operands longer than 2p (3p for cubic) digits are first rounded to 2p (3p) digits '
             'by the code (a double rounding); outside the property domain ("operands that fit the precision") and excluded '
             'by precondition; usize/isize overflow of precision*2 and of the exponent sum is outside the contract')
 
+_UND_ADD = ('add/sub: proved is that the result is the mode-correct rounding of the EXACT sum at SOME unit B^u (Exact iff the '
+            'sum is a multiple of that unit, otherwise the neighbour prescribed by the mode with truthful AddOne/SubOne flag, '
+            'r != x), that repr_round_sum places that unit so that the aligned high part has exactly p (+1 for a true '
+            'subtraction) digits where the low part can fill it, and that the sign / is_sub plumbing of the two mirror helpers '
+            'is identical. NOT proved: that this unit is never above 1 ulp at precision p of the result (needs the cancellation '
+            'argument: at most one leading digit is lost), the p+1 digit bound, and "representable in p digits => Exact". '
+            'digits_ub (f32 estimate) enters through an ASSUMED enclosure digits <= digits_ub <= 2*digits+2. '
+            'Operands with more digits than the precision are outside the contract (property domain).')
+_KNOWN_ADD = ('KNOWN DEFECT excluded by precondition (add_defect_region): base 2, HalfAway, true addition, larger-exponent operand '
+              'shorter than p digits and the other operand far below the rounding position: 1*2^4 + 1*2^-26 at p=6 gives '
+              '33*2^-1 (error 1 ulp); the far-smaller operand is replaced by a sentinel of exactly 1/2 unit')
+
+_UND_CMP = ('float cmp: the precision shortcut (case 4 of repr_cmp_same_base) is sound only for values with at most p+1 digits '
+            'at precision p (taken as precondition: C03 grants it for results of arithmetic); FBig values with more digits are '
+            'reachable through the public API (`with_precision(p)` does not round a source of unlimited precision) and then '
+            'cmp disagrees with the mathematical order: from_parts(12345,0).with_precision(0).with_precision(2) vs 1*10^3 '
+            'compares Less (GENUINE DEFECT, root cause in with_precision, see known finding of unit float_conv). '
+            'digits_ub shortcut (case 5): sound under the ASSUMED enclosure digits <= digits_ub of the f32 estimate. '
+            'Infinities are assumed canonical (exponent +1/-1, as every producer creates them); == assumes normalized reprs '
+            '(invariant of Repr::new). Not covered: PartialOrd for Repr (one-line wrapper of Ord), repr_cmp_ubig / repr_cmp_ibig.')
+
+_UND_SQRT = ('Context::sqrt: proved (operand fits p digits) that the result is ONE correct rounding of the real root to p digits '
+             '(sqrt_post), OUTSIDE the KNOWN DEFECT region "even digit count and odd exponent" (excluded by precondition for '
+             'every mode): there the scaled radicand has 2p+1 digits, the p+1-digit integer root is rounded to an integer and '
+             'then to p digits: sqrt(11*2^-1) at p=4 under HalfEven/HalfAway gives 5*2^-1 instead of 9*2^-2 (reproduced '
+             'natively; directed modes compose correctly but are not proved there). UBig::sqrt_rem is a trusted stub '
+             '(s*s + r == n, 0 <= r <= 2s). Operands longer than p digits (low part dropped into the tie test) not covered.')
+
 PROP_UNITS = {
-    'C03': {'verus': ['float_mul'], 'undecided': [_UND_MUL]},
-    'C15': {'verus': ['float_mul']},
-    'C16': {'verus': ['float_mul', 'float_mul_inf']},
+    'C03': {'verus': ['float_mul', 'float_add', 'float_add_ops', 'float_sqrt'], 'undecided': [_UND_MUL, _UND_ADD, _KNOWN_ADD, _UND_SQRT]},
+    'C05': {'verus': ['float_cmp'], 'undecided': [_UND_CMP]},
+    'C15': {'verus': ['float_mul', 'float_add_ops']},
+    'C16': {'verus': ['float_mul', 'float_mul_inf', 'float_add', 'float_add_ops', 'float_add_inf', 'float_cmp', 'float_sqrt', 'float_sqrt_panic']},
 }
